@@ -315,9 +315,9 @@ package rsm
 //@ requires bw.valid() && !bw.flushed
 //@ requires ptr(bs) + cap(bs) <= ptr(bw.block) || ptr(bw.block) + cap(bw.block) <= ptr(bs)
 //@ requires bw.written + len(bs) + 2 * bw.blockSize < MaxUint64
-//@ modifies bw.block, bw.written, bw.total, bw.nextStop, elems(bw.block), fileutil.gMWptr, fileutil.gMWlen, gHashOut, gHashIn, gHashInLen
+//@ modifies bw.block, bw.written, bw.total, bw.nextStop, elems(bw.block), fileutil.gMWptr, fileutil.gMWlen, gHashOut, gHashOutLen, fileutil.gMWcount, gHashIn, gHashInLen
 //@ ensures result1 == nil ==> result0 == len(bs) && bw.valid() && bw.written == old(bw.written) + len(bs)
-//@ loop 1 modifies bw.block, bw.written, bw.total, bw.nextStop, elems(bw.block), fileutil.gMWptr, fileutil.gMWlen, gHashOut, gHashIn, gHashInLen
+//@ loop 1 modifies bw.block, bw.written, bw.total, bw.nextStop, elems(bw.block), fileutil.gMWptr, fileutil.gMWlen, gHashOut, gHashOutLen, fileutil.gMWcount, gHashIn, gHashInLen
 //@ loop 1 invariant bw.valid() && !bw.flushed && ptr(bw.block) == ptr(old(bw.block)) && cap(bw.block) == cap(old(bw.block)) && bw.blockSize == old(bw.blockSize)
 //@ loop 1 invariant totalN + len(bs) == len(old(bs)) && ptr(bs) == ptr(old(bs)) + totalN && cap(bs) == cap(old(bs)) - totalN && bw.written == old(bw.written) + totalN
 
@@ -571,9 +571,13 @@ package rsm
 //@ extern io (w Writer) Write
 //@ ghostset gHashIn := ptr(p)
 //@ ghostset gHashInLen := len(p)
+//@ ghost var gHashOutLen int
 //@ extern hash (h Hash) Sum
 //@ ensures fresh(result) && len(result) >= 4
 //@ ghostset gHashOut := ptr(result)
+//@ ghostset gHashOutLen := len(result)
+//@ extern hash (h Hash) Reset
+//@ ghostset fileutil.gMWcount := 0
 //@ extern hash (h Hash) Write
 //@ ghostset gHashIn := ptr(p)
 //@ ghostset gHashInLen := len(p)
@@ -594,7 +598,7 @@ package rsm
 //@ func (sw *SnapshotWriter) saveHeader [C16 C14]
 //@ noframe
 //@ nobounds
-//@ modifies gSnapFileDirty, gWAptr, gWAoff, gWAlen, gWAprevPtr, gWAprevOff, gWAprevLen, gHashIn, gHashInLen, gHashOut, fileutil.gMWptr, fileutil.gMWlen
+//@ modifies gSnapFileDirty, gWAptr, gWAoff, gWAlen, gWAprevPtr, gWAprevOff, gWAprevLen, gHashIn, gHashInLen, gHashOut, gHashOutLen, fileutil.gMWcount, fileutil.gMWptr, fileutil.gMWlen
 //@ ensures result == nil ==> gSnapFileDirty
 //@ ensures result == nil ==> gWAprevOff == 8 && gWAprevPtr == fileutil.gMWptr && gWAprevLen == fileutil.gMWlen
 //@ ensures result == nil ==> gWAoff == 8 + gWAprevLen && gWAptr == gHashOut && gWAlen >= 4
@@ -677,8 +681,15 @@ package rsm
 //@ ghost var gBlockBad bool
 // gCovered: number of bytes covered by blocks that passed the comparison
 //@ ghost var gCovered int
+// verified (was trusted as "the definition of a matching checksum"): a block of at most 4 bytes never matches; otherwise
+// the answer is the byte-wise comparison of the block's LAST 4 bytes with the digest the hash returned after it was reset
+// and fed exactly once, with exactly the bytes before them
 //@ func validateBlock [C14]
-//@ trusted splits the block into payload and stored checksum, recomputes the checksum of the payload and compares (hash, bytes.Equal)
+//@ noframe
+//@ nobounds
+//@ ensures len(block) <= 4 ==> !result
+//@ ensures len(block) > 4 ==> result == ufb("byteseq", ptr(block) + len(block) - 4, 4, gHashOut, gHashOutLen)
+//@ ensures len(block) > 4 ==> fileutil.gMWcount == 1 && fileutil.gMWptr == ptr(block) && fileutil.gMWlen == len(block) - 4
 //@ ghostset gBlockBad := old(gBlockBad) || !result
 //@ ghostset gCovered := old(gCovered) + ite(result, len(block), 0)
 //@ func mustGetChecksum [C14]
